@@ -1641,6 +1641,8 @@ class Executor:
             if c is not None and not opaque:
                 c = int(c)
                 if -len(base.items) <= c < len(base.items):
+                    if isinstance(base, ListV):
+                        self.emit("list_read", node, lst=base, index=i)
                     return base.items[c]
                 self.emit("index_error", node, what=f"index {c} out of range for a sequence of length {len(base.items)}")
                 raise RaiseSignal("IndexError", None, node, None)
@@ -1651,6 +1653,10 @@ class Executor:
                     # a list of numbers whose contents are unknown: keep the position
                     r = Num(app("listitem", base.lid, i.nf), (), None, meta={"list_item": (base, i)})
                     return r
+                if opaque and el is not None and getattr(self, "elem_atoms", None) and (c is None or c >= 0):
+                    # positional mode (opt-in): L[i] for a symbolic position i is the same element a zip / enumerate
+                    # loop over L yields at position i
+                    return self._elem_at(base, i, None, node)
                 return self.list_elem(base, node)
             return OpaqueV(f"{valkey(base)}[{valkey(i)}]")
         raise Undecided(f"sequence index {i!r}", node)
